@@ -23,8 +23,13 @@ def gen_block(rng, idx):
         atoms.append(a)
     inters = []
     for _ in range(rng.randint(0, 4)):
-        typ = rng.choice(['bonds', 'bonds', 'angles', 'dihedrals', 'constraints', 'exclusions'])
-        na = {'bonds': 2, 'constraints': 2, 'angles': 3, 'dihedrals': 4, 'exclusions': rng.randint(2, 3)}[typ]
+        # number of atoms per section as documented for the .ff format (the GROMACS directive of the same name)
+        ff_atoms = {'bonds': 2, 'constraints': 2, 'angles': 3, 'dihedrals': 4, 'exclusions': rng.randint(2, 3), 'impropers': 4, 'pairs': 2,
+                    'pairs_nb': 2, 'SETTLE': 1, 'virtual_sites2': 3, 'virtual_sites3': 4, 'virtual_sites4': 5, 'position_restraints': 1,
+                    'distance_restraints': 2, 'dihedral_restraints': 4, 'orientation_restraints': 2, 'angle_restraints': 4,
+                    'angle_restraints_z': 2}
+        typ = rng.choice(['bonds', 'bonds', 'angles', 'dihedrals', 'constraints', 'exclusions'] + (sorted(ff_atoms) if rng.random() < 0.5 else []))
+        na = ff_atoms[typ]
         if n < na:
             continue
         refs = rng.sample(range(n), na)
@@ -35,6 +40,8 @@ def gen_block(rng, idx):
         meta = {'version': rng.choice([1, 2])} if rng.random() < 0.2 else None
         inters.append({'type': typ, 'refs': refs, 'by_index': by_index, 'delim': typ == 'exclusions' or rng.random() < 0.3,
                        'params': params if typ != 'exclusions' else [], 'meta': meta})
+        if typ not in ('bonds', 'angles', 'dihedrals', 'constraints', 'exclusions') and rng.random() < 0.5:
+            inters[-1]['delim'] = True          # with the delimiter a wrong section size cannot hide behind the parameters
     edges = []
     if n >= 2 and rng.random() < 0.4:
         edges.append(rng.sample(range(n), 2))
